@@ -92,6 +92,8 @@ def check_value(ir, t, v, path, out, nillable=True):
             if 'attr' in ft:
                 if x is not None:
                     check_value(ir, ft['attr'], x, '%s.@%s' % (path, fn), out, True)
+                elif ft['attr'].get('min_occurs', 0) >= 1:
+                    out.append(('%s.@%s' % (path, fn), 'min_occurs'))
             elif 'xmldata' in ft:
                 if x is not None:
                     check_value(ir, ft['xmldata'], x, '%s.#text' % path, out, True)
